@@ -411,7 +411,7 @@ fn step<S: MdkStorageProvider>(w: &mut World<S>, l: &str, truth: &mut Truth, run
         let refused = ["res=Err", "res=Unprocessable", "res=PreviouslyFailed", "res=IgnoredProposal"].iter().any(|k| fp.starts_with(k));
         if refused && strip(&fp) != b {
             let rolled = w.clients[m].cb.0.lock().unwrap().len() > rb_before;
-            let cls = if rolled { "rolled-back-then-refused" } else if leave_to_pending_admin { "leave-proposal-stored-although-auto-commit-failed" } else { "" };
+            let cls = if rolled { "rolled-back-then-refused" } else { "" };
             if rolled { truth.rollback_then_refused = true; }
             if leave_to_pending_admin { truth.leave_to_admin_with_pending = true; }
             run.oracle_fail("C06", cls, format!("[{backend}] refused event changed the client's state: `{l}` -> {fp}; before: {b}"), seq.join(" || ") + " || " + &line);
